@@ -1,35 +1,88 @@
+(* C12: nothing reaches the underlying controller while the user-level paused flag is set. *)
 From OlaBase Require Import Bytes.
-From Coq Require Import Sorted.
 From C12 Require Import Gen Model.
 Local Open Scope N_scope.
 
-Ltac unf := unfold step, do_op, handle, continue_overflow, disc_complete, run_callback, take_next,
-  start_disc, maybe_send, mock_send, note_call in *.
-Ltac split_eq H :=
-  cbn in H;
-  repeat (match type of H with
-          | context [match ?x with _ => _ end] => destruct x eqn:?; cbn in H
-          | context [if ?x then _ else _] => destruct x eqn:?; cbn in H
-          end);
-  inversion H; subst; clear H.
-
-(* ---------- nothing is sent while paused ---------- *)
 Definition InvB (s : st) : Prop := h_paused s = negb (s_active s) /\ g_psends s = 0.
+Definition bview (s : st) := (h_paused s, s_active s, g_psends s).
+
+Lemma InvB_view s s' : bview s' = bview s -> InvB s -> InvB s'.
+Proof. unfold bview, InvB. intros E [H1 H2]. inversion E as [[E1 E2 E3]]. split; congruence. Qed.
+
+Lemma mock_send_B id s ag s' ag' :
+  h_paused s = false -> mock_send id s ag = (s', ag') -> bview s' = bview s.
+Proof.
+  unfold mock_send, note_call, bview. intros Hp H. cbn in H. rewrite Hp in H. cbn in H.
+  destruct (m_script s) as [|[r|] ms]; inversion H; subst; reflexivity.
+Qed.
+Lemma maybe_send_B s ag s' ag' :
+  h_paused s = false -> maybe_send s ag = (s', ag') -> bview s' = bview s.
+Proof.
+  unfold maybe_send. intros Hp H. destruct (s_queue s) as [|[id cb] q].
+  - inversion H; subst; reflexivity.
+  - apply mock_send_B in H; [|exact Hp]. rewrite H. reflexivity.
+Qed.
+Lemma start_disc_B s ag s' ag' :
+  h_paused s = false -> start_disc s ag = (s', ag') -> bview s' = bview s.
+Proof.
+  unfold start_disc, note_call, bview. intros Hp H. cbn in H. rewrite Hp in H. cbn in H.
+  destruct (m_dscript s) as [|[|] ds]; inversion H; subst; reflexivity.
+Qed.
+Lemma take_next_B s ag s' ag' :
+  h_paused s = negb (s_active s) -> take_next s ag = (s', ag') -> bview s' = bview s.
+Proof.
+  unfold take_next. intros Hp H.
+  destruct (s_active s) eqn:Ea; cbn in H.
+  - cbn in Hp. destruct (s_pending s || negb (is_nil (s_rdisc s))).
+    + inversion H; subst; reflexivity.
+    + destruct (negb (is_nil (s_pdisc s))); [eapply start_disc_B|eapply maybe_send_B]; eauto.
+  - inversion H; subst; reflexivity.
+Qed.
+Lemma continue_overflow_B s ag s' ag' :
+  h_paused s = negb (s_active s) -> continue_overflow s ag = (s', ag') -> bview s' = bview s.
+Proof.
+  unfold continue_overflow. intros Hp H. destruct (s_active s) eqn:Ea.
+  - eapply maybe_send_B; eauto.
+  - inversion H; subst; reflexivity.
+Qed.
+Lemma run_callback_B rep parts s ag s' ag' :
+  run_callback rep parts s ag = (s', ag') -> bview s' = bview s.
+Proof.
+  unfold run_callback. intros H. destruct (s_queue s) as [|[id cb] q]; inversion H; subst; reflexivity.
+Qed.
+Lemma handle_B rep s ag s' ag' :
+  h_paused s = negb (s_active s) -> handle rep s ag = (s', ag') -> bview s' = bview s.
+Proof.
+  unfold handle. intros Hp H.
+  destruct (is_nil (s_queue (set_s_pending false s))).
+  { inversion H; subst. reflexivity. }
+  repeat match type of H with
+  | context [match ?x with _ => _ end] => destruct x eqn:?
+  end;
+  try (apply run_callback_B in H; rewrite H; reflexivity);
+  try (apply continue_overflow_B in H; [rewrite H; reflexivity|exact Hp]).
+Qed.
 
 Lemma step_B s f ag s' ag' : InvB s -> step s f ag = (s', ag') -> InvB s'.
 Proof.
-  unfold InvB. intros (Hp & Hs) H. unf.
-  destruct f as [[cb|full cb| | |r|]| | |]; cbn in H.
-  all: rewrite ?Hp in H.
-  all: split_eq H; cbn.
-  all: repeat match goal with
-       | H : negb _ = true |- _ => apply negb_true_iff in H
-       | H : negb _ = false |- _ => apply negb_false_iff in H
-       | H : _ || _ = false |- _ => apply orb_false_iff in H; destruct H
-       end.
-  all: try congruence.
-  all: split; try congruence; try lia.
-  all: try (rewrite Hp; congruence).
-  all: try (destruct (s_active s); cbn in *; congruence).
+  intros HB H. pose proof HB as [Hp Hs].
+  destruct f as [[cb|full cb| | |r|]| | |]; cbn [step do_op] in H.
+  - destruct (s_max (set_h_next (h_next s + 1) s) <=? len (s_queue (set_h_next (h_next s + 1) s))).
+    + inversion H; subst. eapply InvB_view; [|exact HB]. reflexivity.
+    + apply take_next_B in H; [|exact Hp]. eapply InvB_view; [|exact HB]. rewrite H. reflexivity.
+  - destruct (s_discov s).
+    + apply take_next_B in H; [|exact Hp]. eapply InvB_view; [|exact HB]. rewrite H. reflexivity.
+    + inversion H; subst. exact HB.
+  - inversion H; subst. split; cbn; auto.
+  - apply take_next_B in H; [|reflexivity]. unfold bview in H. cbn in H. inversion H as [[E1 E2 E3]].
+    split; [rewrite E1, E2; reflexivity | congruence].
+  - destruct (m_out s).
+    + inversion H; subst. exact HB.
+    + apply handle_B in H; [|exact Hp]. eapply InvB_view; [|exact HB]. rewrite H. reflexivity.
+  - destruct (m_dout s).
+    + inversion H; subst. exact HB.
+    + unfold disc_complete in H. inversion H; subst. eapply InvB_view; [|exact HB]. reflexivity.
+  - apply take_next_B in H; [|exact Hp]. eapply InvB_view; [|exact HB]. exact H.
+  - inversion H; subst. eapply InvB_view; [|exact HB]. reflexivity.
+  - apply take_next_B in H; [|exact Hp]. eapply InvB_view; [|exact HB]. rewrite H. reflexivity.
 Qed.
-
